@@ -29,6 +29,7 @@ type c18Atom struct {
 	lo   *string  // closed interval; nil = unbounded
 	hi   *string
 	pre  string
+	open bool // strict comparison: the bound itself does not satisfy the atom (regions are still taken closed)
 }
 
 func sp(s string) *string { return &s }
@@ -44,8 +45,8 @@ func c18Pinning(canonOnly bool) []c18Atom {
 		out = append(out, c18Atom{n: gen.Bin(">=", K(), gen.Str(l)), kind: "ge", lo: sp(l)})
 		out = append(out, c18Atom{n: gen.Bin("<=", K(), gen.Str(l)), kind: "le", hi: sp(l)})
 		if !canonOnly {
-			out = append(out, c18Atom{n: gen.Bin(">", K(), gen.Str(l)), kind: "ge", lo: sp(l)})
-			out = append(out, c18Atom{n: gen.Bin("<", K(), gen.Str(l)), kind: "le", hi: sp(l)})
+			out = append(out, c18Atom{n: gen.Bin(">", K(), gen.Str(l)), kind: "ge", lo: sp(l), open: true})
+			out = append(out, c18Atom{n: gen.Bin("<", K(), gen.Str(l)), kind: "le", hi: sp(l), open: true})
 		}
 	}
 	for i, a := range c18Pool {
@@ -72,7 +73,7 @@ func c18Pinning(canonOnly bool) []c18Atom {
 		out = append(out, c18Atom{n: gen.In(K(), gen.Str(""), gen.Str("b")), kind: "in", set: []string{"", "b"}})
 		// an upper bound at the empty literal: nothing but the empty key lies below it
 		out = append(out, c18Atom{n: gen.Bin("<=", K(), gen.Str("")), kind: "le", hi: sp("")})
-		out = append(out, c18Atom{n: gen.Bin("<", K(), gen.Str("")), kind: "le", hi: sp("")})
+		out = append(out, c18Atom{n: gen.Bin("<", K(), gen.Str("")), kind: "le", hi: sp(""), open: true})
 		out = append(out, c18Atom{n: gen.Bin(">=", gen.Str(""), K()), kind: "le", hi: sp("")})
 	}
 	return out
@@ -500,10 +501,13 @@ func (k c18) judge(c *rt.Ctx, tree *gen.Node, pins []c18Atom, isFalse bool) {
 // c18DeepUnsat: the conjunction of the closed regions is empty although not
 // "on its face" (e.g. an equality outside a prefix): no read is acceptable.
 func c18DeepUnsat(pins []c18Atom) bool {
+	excluded := func(p c18Atom, kk string) bool {
+		return p.open && ((p.hi != nil && kk == *p.hi) || (p.lo != nil && kk == *p.lo))
+	}
 	for _, kk := range c02Universe {
 		all := true
 		for _, p := range pins {
-			if p.where(kk) != 0 {
+			if p.where(kk) != 0 || excluded(p, kk) {
 				all = false
 				break
 			}
@@ -516,7 +520,7 @@ func c18DeepUnsat(pins []c18Atom) bool {
 	for _, l := range c18Pool {
 		all := true
 		for _, p := range pins {
-			if p.where(l) != 0 {
+			if p.where(l) != 0 || excluded(p, l) {
 				all = false
 				break
 			}
